@@ -34,6 +34,59 @@ MALFORMED = [
 ]
 
 
+# valid calls whose user functions return numbers in other Python / numpy types: they must return like any other
+RETURN_TYPES = ["obj_int", "obj_f32", "obj_0d", "obj_1elem", "obj_list", "obj_bool",
+                "con_int_eq", "con_intarr_eq", "con_int_ineq", "con_f32_two", "con_list_eq", "dict_eq_int",
+                "dict_ineq_int", "con_bool_ineq"]
+
+
+def run_return_type(case):
+    name = case["return_type"]
+    n = 2
+    q = lambda x: float((x[0] - 1.0) ** 2 + (x[1] + 0.5) ** 2)  # noqa: E731
+    conv = {"int": lambda v: int(round(v)), "f32": np.float32, "0d": np.array, "1elem": lambda v: np.array([v]),
+            "list": lambda v: [v], "bool": lambda v: bool(v > 1.0)}
+    kw = dict(fun=q, x0=[0.25, 0.5], options={"maxfev": 40})
+    if name.startswith("obj_"):
+        kw["fun"] = lambda x, c=conv[name[4:]]: c(q(x))
+    else:
+        g = lambda x: float(x[0] + 2.0 * x[1])  # noqa: E731
+        if name == "con_int_eq":
+            kw["constraints"] = NonlinearConstraint(lambda x: int(round(g(x))), 1, 1)
+        elif name == "con_intarr_eq":
+            kw["constraints"] = NonlinearConstraint(lambda x: np.array([int(round(g(x))), 2]), [1, 0], [1, 5])
+        elif name == "con_int_ineq":
+            kw["constraints"] = NonlinearConstraint(lambda x: int(round(g(x))), -np.inf, 1)
+        elif name == "con_f32_two":
+            kw["constraints"] = NonlinearConstraint(lambda x: np.float32(g(x)), -1.0, 1.0)
+        elif name == "con_list_eq":
+            kw["constraints"] = NonlinearConstraint(lambda x: [g(x), x[0]], [1.0, -np.inf], [1.0, 2.0])
+        elif name == "dict_eq_int":
+            kw["constraints"] = {"type": "eq", "fun": lambda x: int(round(g(x)))}
+        elif name == "dict_ineq_int":
+            kw["constraints"] = [{"type": "ineq", "fun": lambda x: int(round(g(x)))}, {"type": "eq", "fun": lambda x: 0}]
+        elif name == "con_bool_ineq":
+            kw["constraints"] = NonlinearConstraint(lambda x: g(x) > 1.0, -np.inf, 0.5)
+        else:
+            raise common.HarnessError(name)
+    viol = []
+    try:
+        with warnings.catch_warnings():
+            warnings.simplefilter("ignore")
+            with np.errstate(all="ignore"), redirect_stdout(io.StringIO()), common.watchdog(60):
+                res = e1.cobyqa.minimize(**kw)
+        outcome = "returned" if hasattr(res, "x") and np.shape(res.x) == (n,) else "malformed-result"
+    except common.Timeout:
+        outcome = "Timeout"
+    except BaseException as e:  # noqa
+        outcome = type(e).__name__ + ": " + str(e)[:80]
+    if outcome != "returned":
+        viol.append({"key": f"return-type:{name}:{outcome.split(':')[0]}", "case": case,
+                     "what": f"valid call whose user function returns '{name}' values ended with {outcome}"})
+    return {"viol": viol, "stats": {"runs": 1, "return_type_calls": 1}, "digests": ["rt:" + name + outcome],
+            "nontrivial": ["rt:" + name + outcome]}
+
+
 def roots(tier, seed):
     from .. import cover
     out = []
@@ -183,6 +236,8 @@ def roots(tier, seed):
     # (F) malformed arguments
     for name in MALFORMED:
         out.append({"malformed": name, "n": 2})
+    for name in RETURN_TYPES:
+        out.append({"return_type": name, "n": 2})
     out += cover.roots_for(tier, explore_thorough=1)
     return alpha.permute(out, seed)
 
@@ -257,10 +312,12 @@ def _stats(rec, table, stats):
 def run_case(case):
     if "malformed" in case:
         return run_malformed(case)
+    if "return_type" in case:
+        return run_return_type(case)
     return e1prop.run_case_generic(case, oracles.c08, extra_stats=_stats)
 
 
 def coverage(agg, tier, roots_):
     need = ["deviated_runs", "evals_tr", "evals_geo", "nan_results", "special_box_runs", "barrier_applied",
-            "malformed_calls", "status_2", "status_-1", "radius_underflow_runs"]
+            "malformed_calls", "status_2", "status_-1", "radius_underflow_runs", "return_type_calls"]
     return e1prop.coverage_generic(agg, tier, roots_, RULE, need=need, dev_bound=2 if tier == "thorough" else 1)
